@@ -42,7 +42,8 @@ Record Inv (s : st) : Prop := {
   J3 : live s = true ->
        forall u, get (Rc s) u <= get (view (hdm s)) u \/
                  (exists h, refs (T s h) > 0 /\ get (Rc s) u <= get (clk (T s h)) u) \/
-                 (exists h, mustfree (T s h) = true /\ get (Rc s) u <= get (clk (T s h)) u);
+                 (exists h, mustfree (T s h) = true /\ get (Rc s) u <= get (clk (T s h)) u) \/
+                 (exists h, lend (T s h) <> 0 /\ get (Rc s) u <= get (clk (T s h)) u);
   J4 : forall t, mustfree (T s t) = true ->
          live s = true /\ total (ths s) = 0 /\
          cle (Wc s) (join (clk (T s t)) (pend (T s t))) /\ cle (Rc s) (join (clk (T s t)) (pend (T s t))) /\
@@ -55,7 +56,12 @@ Record Inv (s : st) : Prop := {
          (forall m', In m' (firstn p (msgs s)) -> ~ hb m' (clk (T s t))) ->
          refs (T s t) + 1 <= val m;
   J8 : forall t, started (T s t) = false -> refs (T s t) = 0 /\ mustfree (T s t) = false /\ excl (T s t) = false;
-  J9 : live s = true -> total (ths s) = 0 -> exists t, mustfree (T s t) = true
+  J9 : live s = true -> total (ths s) = 0 -> exists t, mustfree (T s t) = true;
+  (* a borrower reads through a handle its lender keeps: the lender holds a reference, is not itself a borrower, has
+     not observed uniqueness, and every write to the buffer happens-before the borrower *)
+  J10 : forall c p, lend (T s c) = S p ->
+          started (T s c) = true /\ p <> c /\ refs (T s p) > 0 /\ lend (T s p) = 0 /\ excl (T s p) = false
+          /\ cle (Wc s) (clk (T s c))
 }.
 
 Lemma T_dth s t : length (ths s) <= t -> T s t = dth.
@@ -65,6 +71,31 @@ Lemma mustfree_no_refs s h t : Inv s -> mustfree (T s h) = true -> refs (T s t) 
 Proof.
   intros I Hm Hr. destruct (J4 s I h Hm) as (_ & H0 & _). pose proof (total_ge (ths s) t). unfold T, getth in Hr. lia.
 Qed.
+
+Lemma lends_from_false s p c : lends_from s p = false -> lend (T s c) <> S p.
+Proof.
+  unfold lends_from, T, getth. intros H E.
+  destruct (Nat.lt_ge_cases c (length (ths s))) as [Hc|Hc].
+  - assert (Hin : In (nth c (ths s) dth) (ths s)) by (apply nth_In; exact Hc).
+    assert (existsb (fun x => Nat.eqb (lend x) (S p)) (ths s) = true).
+    { apply existsb_exists. exists (nth c (ths s) dth). split; [exact Hin|]. apply Nat.eqb_eq. exact E. }
+    congruence.
+  - rewrite nth_overflow in E by exact Hc. cbn in E. discriminate.
+Qed.
+(* while somebody borrows: the buffer is live, nobody must free it, nobody is exclusive *)
+Lemma borrower_live s c p : Inv s -> lend (T s c) = S p -> live s = true.
+Proof.
+  intros I H. destruct (J10 s I c p H) as (_ & _ & Hr & _). destruct (live s) eqn:Hl; [reflexivity|].
+  destruct (J6 s I Hl) as (H0 & _). pose proof (total_ge (ths s) p). unfold T, getth in Hr. lia.
+Qed.
+Lemma borrower_no_excl s c p q : Inv s -> lend (T s c) = S p -> excl (T s q) = true -> False.
+Proof.
+  intros I H He. destruct (J10 s I c p H) as (_ & _ & Hr & _ & Hpe & _). destruct (J5 s I q He) as (_ & Hq1 & Htot & _).
+  destruct (Nat.eq_dec p q) as [->|Hne]; [congruence|].
+  pose proof (total_ge2 (ths s) p q Hne). unfold T, getth in *. lia.
+Qed.
+Lemma borrower_no_mustfree s c p q : Inv s -> lend (T s c) = S p -> mustfree (T s q) = true -> False.
+Proof. intros I H Hm. destruct (J10 s I c p H) as (_ & _ & Hr & _). exact (mustfree_no_refs s q p I Hm Hr). Qed.
 
 (* safety: an invariant state never steps to an error *)
 Theorem safe s t a : Inv s -> forall e, step s t a <> Err e.
@@ -80,7 +111,8 @@ Proof.
     + pose proof (J2 s I t Hr) as H2. apply cleb_spec in H2. rewrite H2. cbn. discriminate.
     + destruct (J6 s I Hl) as [H0 _]. pose proof (total_ge (ths s) t). unfold T, getth in Hr. lia.
   - (* write *)
-    destruct (excl (T s t)) eqn:He; cbn [negb]; [|discriminate].
+    destruct (excl (T s t)) eqn:He; cbn [negb orb]; [|discriminate].
+    destruct (lends_from s t); [discriminate|].
     destruct (J5 s I t He) as (Hl & _ & _ & HW & HR).
     rewrite Hl. cbn [negb]. apply cleb_spec in HW, HR. rewrite HW, HR. cbn. discriminate.
   - (* clone *)
@@ -89,7 +121,8 @@ Proof.
     destruct (J6 s I Hl) as [H0 _]. pose proof (total_ge (ths s) t). unfold T, getth in Hr. lia.
   - (* release *)
     destruct (Nat.ltb_spec 0 (refs (T s t))) as [Hr|Hr]; cbn [negb orb]; [|discriminate].
-    destruct (mustfree (T s t)); [discriminate|].
+    destruct (mustfree (T s t)); [discriminate|]. cbn [orb].
+    destruct (lends_from s t); [discriminate|].
     destruct (live s) eqn:Hl; cbn [negb]; [discriminate|].
     destruct (J6 s I Hl) as [H0 _]. pose proof (total_ge (ths s) t). unfold T, getth in Hr. lia.
   - (* free *)
@@ -103,12 +136,13 @@ Proof.
       by (eapply cle_trans; [exact HR | apply cle_tick]).
     apply cleb_spec in HW', HR'. rewrite HW', HR'. cbn. discriminate.
   - (* probe *)
-    destruct (Nat.ltb_spec 0 (refs (T s t))) as [Hr|Hr]; cbn [negb]; [|discriminate].
+    destruct (Nat.ltb_spec 0 (refs (T s t))) as [Hr|Hr]; cbn [negb orb]; [|discriminate].
+    destruct (lends_from s t); [discriminate|].
     destruct (live s) eqn:Hl; cbn [negb].
     + destruct (nth_error (msgs s) p); [|discriminate].
       destruct (forallb _ _); cbn; discriminate.
     + destruct (J6 s I Hl) as [H0 _]. pose proof (total_ge (ths s) t). unfold T, getth in Hr. lia.
-  - destruct (_ || _ || _ || _); discriminate.
+  - destruct (_ || _ || _ || _ || _); discriminate.
   - destruct (_ || _ || _ || _); discriminate.
   - (* fence *) discriminate.
   - (* read by the freeing thread *)
@@ -119,4 +153,11 @@ Proof.
     assert (HW' : cle (Wc s) (clk (T s t))).
     { eapply cle_trans; [exact HW|]. apply cle_join_lub; [apply cle_refl|exact Hf]. }
     apply cleb_spec in HW'. rewrite HW'. cbn. discriminate.
+  - (* lend *) destruct (_ || _ || _ || _ || _); discriminate.
+  - (* read through a borrowed handle *)
+    destruct (Nat.eqb_spec (lend (T s t)) 0) as [|Hl0]; [discriminate|].
+    destruct (lend (T s t)) as [|p] eqn:El; [contradiction|].
+    rewrite (borrower_live s t p I El). cbn [negb].
+    destruct (J10 s I t p El) as (_ & _ & _ & _ & _ & HW). apply cleb_spec in HW. rewrite HW. cbn. discriminate.
+  - (* join a borrower *) destruct (_ || _ || _ || _ || _); discriminate.
 Qed.
